@@ -37,7 +37,11 @@ CTX_G = {'macros': [['tc', ['S', [['m', '-c']]]], ['mc', ['S', [['m', '+c']]]], 
 ATOMS_G = ['a', ' ', '{', '}', '$', '$$', '\\(', '\\)', '\\tc', '\\mc', '\\tm', '\\z', '{x}', '\\begin{eq}', '\\end{eq}', '\\tc{a $b$}', '\\mc{x}', '~']
 CTX_F = {'macros': [['ref', ['SH', [['m', '']]]], ['so', ['SH', [['o1', ''], ['m', '']]]], ['m', S('m')], ['z', S()]],
          'envs': [['en', ['SH', [['m', '']]], False]], 'specials': [['~', S()]], 'um': S(), 'ue': [S(), False]}
-CONTEXTS = {'A': CTX_A, 'B': CTX_B, 'C': CTX_C, 'D': CTX_D, 'E': CTX_E, 'F': CTX_F, 'G': CTX_G, 'default': 'default'}
+# argument kinds outside the Lean ArgKind type (documented specification strings 'e{^_}', 'AnyDelimited', 'AnyDelimitedOptional'); oracle only
+CTX_H = {'macros': [['sup', ['S', [['EM', '']]]], ['ms', ['S', [['m', ''], ['EM', '']]]], ['ad', ['S', [['AD', '']]]], ['ao', ['S', [['ADO', ''], ['m', '']]]], ['z', S()]],
+         'envs': [['en', ['S', [['ADO', '']]], False]], 'specials': [['~', S()]], 'um': S(), 'ue': [S(), False]}
+ATOMS_H = ['a', ' ', '\n', '^', '_', '^a', '_{b}', '{x}', '[o]', '(p)', '<q>', '{', '}', '[', ']', '(', '$', '%c\n', '~', '\\sup', '\\ms', '\\ad', '\\ao', '\\z', '\\begin{en}', '\\end{en}']
+CONTEXTS = {'H': CTX_H, 'A': CTX_A, 'B': CTX_B, 'C': CTX_C, 'D': CTX_D, 'E': CTX_E, 'F': CTX_F, 'G': CTX_G, 'default': 'default'}
 ATOMS_F = ['a', ' ', '\n', '{}', '{x}', '[]', '[o]', '{', '}', '$', '~', '\\ref', '\\so', '\\m', '\\z', '\\begin{en}', '\\end{en}', '%c\n']
 ATOMS_E = ['a', ' ', '\n', '{x}', '[o]', '|', '|c|', '!v!', '{', '}', '[', '$', '%c\n', '~', '\\li', '\\mi', '\\lm', '\\verb', '\\z', '+a[1]+', '\\begin{en}', '\\end{en}', '\\begin{vb}', '\\end{vb}', '\\end{vb', '\\eqn{x}', '\\notag', '\\label{l}', '\\tag']
 ATOMS_D = ['a', ' ', '\n', '{', '}', '[', '$', '%c\n', '~', '!', '\\p', '\\q', '\\pm', '\\z', '\\begin{en}', '\\end{en}', '\\', '\\(', '\\)', '\\begin', '\t']
@@ -60,6 +64,8 @@ def atoms_for(ctxname):
         return ATOMS_E
     if ctxname == 'F':
         return ATOMS_F
+    if ctxname == 'H':
+        return ATOMS_H
     if ctxname == 'G':
         return ATOMS_G
     return ATOMS_DEFAULT if ctxname == 'default' else ATOMS_CUSTOM
